@@ -50,7 +50,7 @@ var uniform = []struct{ name, text string }{
 }
 
 // junk: one trailing token that can never continue an expression.
-var junk = []string{")", "]", "}", ",", "1", "true"}
+var junk = []string{")", "]", "}", ",", "1", "true", "#"}
 
 type caseRec struct {
 	ID         string   `json:"id"`
@@ -264,8 +264,18 @@ func main() {
 		}
 		rec["variants"] = variants
 		rec["outs"] = outs
-		rec["srcs"] = srcs
-		rec["junk"] = junks
+		if len(outs) > 1 || srcs["strdiff"] != "" {
+			rec["srcs"] = srcs // the differing source texts, for the replay file only
+		}
+		// junk: the number of junk-extended sources tried and those NOT rejected (lossless: the junk set is fixed)
+		accepted := []junkObs{}
+		for _, j := range junks {
+			if j.K != "cerr" {
+				accepted = append(accepted, j)
+			}
+		}
+		rec["junkTried"] = len(junks)
+		rec["junkAccepted"] = accepted
 		rec["src"] = join(c.TokensMin, c.GapsMin, func(int) string { return " " })
 		rec["out"] = outs[variants[0].Oh]
 		rec["evals"] = evals
